@@ -135,3 +135,69 @@ fn k_exe_3p_participant_panics_at_the_bound() {
     std::mem::forget(l);
     std::mem::forget(z);
 }
+
+/// the iteration stamp the stubbed frame pop was handed
+pub(crate) static mut POP_ITER: Option<IterationStamp> = None;
+impl<'me> ActiveQueryGuard<'me> {
+    pub(crate) fn verif_pop_recording(self, iteration: IterationStamp) -> CompletedQuery {
+        // SAFETY: single-threaded harness
+        unsafe { POP_ITER = Some(iteration) };
+        std::mem::forget(self);
+        CompletedQuery { revisions: crate::zalsa_local::verif::revs(Durability::LOW, Revision::start(), true, crate::zalsa_local::verif::empty_derived()), stale_tracked_structs: Vec::new() }
+    }
+}
+
+//@ob id=K-EXE-4 kind=C props=C15 timeout=900 fn=try_complete_query flags=stubs,noreplay
+//@ pre: a fixpoint query finishes an execution in which it read no provisional value any more (no cycle heads), at any iteration 0..=199 of any epoch (frame pop stubbed to record the stamp)
+//@ post: it completes: with the default stamp if it never iterated, else with iteration + 1 of the same epoch (<= 200)
+#[cfg(kani)]
+#[kani::proof]
+#[kani::unwind(4)]
+#[kani::stub(crate::zalsa_local::ActiveQueryGuard::pop, crate::zalsa_local::ActiveQueryGuard::verif_pop_recording)]
+#[kani::stub(crate::function::execute::complete_cycle_query, stub_complete_cycle_query)]
+fn k_exe_4_completion_without_heads() {
+    let (i, e): (u8, u8) = (kani::any(), kani::any());
+    kani::assume(i < 200);
+    let (z, l, it) = participant_world(i, e);
+    let me = vk::key(2, 1);
+    let frame = l.push_query(me);
+    let mut guard = crate::function::sync::verif::fake_guard(&z, &l, me.ingredient_index(), me.key_index());
+    let out = try_complete_query(&z, frame, &mut guard, it);
+    assert!(matches!(out, QueryExecutionOutcome::Completed(_)));
+    // SAFETY: single-threaded harness
+    let seen = unsafe { POP_ITER }.unwrap();
+    if i == 0 {
+        assert!(seen == IterationStamp::default());
+    } else {
+        assert!(seen.iteration() == i + 1 && seen.cancellation_count() == e);
+    }
+    kani::cover!(i == 199, "last permitted increment");
+    kani::cover!(true, "end-of-harness reachable");
+    std::mem::forget(out);
+    std::mem::forget(guard);
+    std::mem::forget(l);
+    std::mem::forget(z);
+}
+
+//@ob id=K-EXE-4p kind=C props=C15 timeout=900 fn=try_complete_query flags=stubs,noreplay,should_panic
+//@ pre: as K-EXE-4 at iteration 200
+//@ post: panics with "too many cycle iterations" as the only failure
+//@ panic: too many cycle iterations
+#[cfg(kani)]
+#[kani::proof]
+#[kani::unwind(4)]
+#[kani::should_panic]
+#[kani::stub(crate::zalsa_local::ActiveQueryGuard::pop, crate::zalsa_local::ActiveQueryGuard::verif_pop_recording)]
+#[kani::stub(crate::function::execute::complete_cycle_query, stub_complete_cycle_query)]
+fn k_exe_4p_completion_panics_at_the_bound() {
+    let e: u8 = kani::any();
+    let (z, l, it) = participant_world(200, e);
+    let me = vk::key(2, 1);
+    let frame = l.push_query(me);
+    let mut guard = crate::function::sync::verif::fake_guard(&z, &l, me.ingredient_index(), me.key_index());
+    let out = try_complete_query(&z, frame, &mut guard, it);
+    std::mem::forget(out);
+    std::mem::forget(guard);
+    std::mem::forget(l);
+    std::mem::forget(z);
+}
